@@ -46,6 +46,7 @@ def check(chk):
     _pure_rebuild(chk)
     _alias(chk)
     _codec(chk)
+    _codec_injective(chk)
     _plain_attrs(chk)
     # per-element transformers are stored under "0", "1", ...: rebuilding walks them in list order
     from .common import index_key_order
@@ -578,6 +579,84 @@ def _in_try_catching(f, node, needed: set[str]) -> bool:
     return False
 
 
+def _module_closure(mod, f):
+    """f and the module-level functions of `mod` it calls, transitively."""
+    seen, todo = [], [f]
+    while todo:
+        g = todo.pop()
+        if g in seen:
+            continue
+        seen.append(g)
+        for c in walk_no_nested(g.node):
+            if isinstance(c, ast.Call) and isinstance(c.func, ast.Name) and c.func.id in mod.functions:
+                todo.append(mod.functions[c.func.id])
+    return seen
+
+
+def _under_pred(g: FuncInfo, st: ast.AST, pname: str) -> bool:
+    """st executes only when a call of the module function `pname` returned true (negations folded, conjunctions split)"""
+    from .common import atomic_conditions
+    for t, pol in atomic_conditions(FuncFacts.of(g), st):
+        if pol and isinstance(t, ast.Call) and isinstance(t.func, ast.Name) and t.func.id == pname:
+            return True
+    return False
+
+
+def _decoder_predicates(mod, dec):
+    """module functions called in a condition that guards the decoder's write-back of a decoded attribute"""
+    preds = []
+    for g in _module_closure(mod, dec):
+        for st in walk_no_nested(g.node):
+            if not (isinstance(st, ast.Assign) and isinstance(st.targets[0], ast.Subscript) and isinstance(st.targets[0].value, ast.Attribute)
+                    and st.targets[0].value.attr == "attrs"):
+                continue
+            for name in mod.functions:
+                if _under_pred(g, st, name) and mod.functions[name] not in preds:
+                    preds.append(mod.functions[name])
+    return preds
+
+
+def _codec_injective(chk):
+    """SERIAL.codec.injective - the netCDF attribute codec must be a bijection on what users can store.  The reader decodes
+    every string its predicate P accepts (by SHAPE: looks like a dict / list / bool / None literal).  The writer encodes
+    dict / list / bool / None as such strings.  A user string of that shape ('[1, 2]', 'True', 'None') therefore comes back
+    as another VALUE unless the writer escapes exactly the strings P accepts (it must consult P - the reader's own predicate -
+    on the values it does not encode), or P keys on a marker constant that the writer puts in front of what it encodes."""
+    mod = chk.pm.modules.get("xeofs.utils.io")
+    chk.require(mod is not None, "xeofs/utils/io.py vanished")
+    enc, dec = mod.functions.get("_sanitize_attrs_nc"), mod.functions.get("_desanitize_attrs_nc")
+    chk.require(enc is not None and dec is not None, "utils/io.py: netCDF attribute encoder / decoder vanished")
+    preds = _decoder_predicates(mod, dec)
+    chk.require(bool(preds), "utils/io.py: the decoder's predicate (a module function guarding the decoded write-back) was not found")
+    enc_fns = _module_closure(mod, enc)
+    enc_consts = {n.value for g in enc_fns if g not in preds for n in ast.walk(g.node) if isinstance(n, ast.Constant) and isinstance(n.value, str)}
+    for P in preds:
+        # the writer's attribute write-backs, per level (node / variable); the escaped ones are those under a positive P(...) guard
+        lv_all, lv_esc = set(), set()
+        for g in enc_fns:
+            if g is P:
+                continue
+            for st in walk_no_nested(g.node):
+                if not (isinstance(st, ast.Assign) and isinstance(st.targets[0], ast.Subscript) and isinstance(st.targets[0].value, ast.Attribute)
+                        and st.targets[0].value.attr == "attrs"):
+                    continue
+                lv = "variable" if isinstance(st.targets[0].value.value, ast.Subscript) else "node"
+                lv_all.add(lv)
+                if _under_pred(g, st, P.name):
+                    lv_esc.add(lv)
+        consults = bool(lv_esc) and lv_esc == lv_all
+        # marker form: P accepts only strings starting with ONE constant of >= 4 characters that the writer also mentions
+        starts = [c for c in ast.walk(P.node) if isinstance(c, ast.Call) and isinstance(c.func, ast.Attribute) and c.func.attr == "startswith"]
+        markers = {const_str(c.args[0]) for c in starts if c.args and const_str(c.args[0])}
+        marker = len(starts) == 1 and len(markers) == 1 and len(next(iter(markers))) >= 4 and next(iter(markers)) in enc_consts
+        chk.check(consults or marker, "SERIAL.codec.injective", enc, enc.node,
+                  construct=f"{enc.name} escapes the strings that {P.name} accepts",
+                  why=f"{dec.name} decodes every string that {P.name} accepts by its shape, but {enc.name} writes user strings as they are: an attribute "
+                      "string that looks like a literal ('[1, 2]', 'True', 'None') comes back as a list / bool / None after a netCDF round trip - the writer "
+                      f"must escape the strings {P.name} accepts (or encode behind a marker the reader keys on)",
+                  facts={"predicate": P.name, "encoder_closure": [g.name for g in enc_fns], "levels_written": sorted(lv_all), "levels_escaped": sorted(lv_esc)})
+
+
 def _plain_attrs(chk):
     """SERIAL.plain - what a transformer lists in get_serialization_attrs() is written either as a data node (DataArray /
     Dataset / dict of them) or as a node attribute, and node attributes must survive json.dumps (zarr) and the netCDF
@@ -657,6 +736,7 @@ def _codec(chk):
     # the codec is APPLIED on both levels (node attributes and variable attributes) in both directions: every
     # encoder / decoder walks `<x>.attrs.items()` and writes the converted value back under the same key
     from .common import class_closure
+    dec_preds = _decoder_predicates(mod, mod.functions["_desanitize_attrs_nc"]) if "_desanitize_attrs_nc" in mod.functions else []
     for fname, conv in (("_sanitize_attrs_nc", ("str", "_sanitize", "repr", "json.dumps")), ("_desanitize_attrs_nc", ("_desanitize", "literal_eval", "json.loads"))):
         f = mod.functions.get(fname)
         chk.require(f is not None, f"utils/io.py: {fname} vanished")
@@ -669,6 +749,9 @@ def _codec(chk):
                     continue
                 v = st.value
                 if not (isinstance(v, ast.Call) and (dotted(v.func) or "").split(".")[-1] in [c.split(".")[-1] for c in conv]):
+                    continue
+                # the escape of look-alike strings (a write under the reader's own predicate) is not the encoding of a value
+                if fname == "_sanitize_attrs_nc" and any(_under_pred(g, st, P.name) for P in dec_preds):
                     continue
                 # which attrs: of the node itself or of a variable of the node (node[v].attrs)
                 recv = st.targets[0].value.value
